@@ -1183,6 +1183,28 @@ class KernelRun:
         for _ in range(2):
             await self.pop()
 
+    async def dir_target_bounds(self):
+        """A directory target next to outputs whose labels are the bounds of its label range and near misses
+        (`d0` is the exclusive upper bound of `d/`, `d.txt` and `d-x` share the name prefix): only the producers of
+        what lies under the directory are needed."""
+        r, wf = self.r, self.wf
+        running = await self.q(lambda: self.steps(StepState.RUNNING))
+        if "./plan.py" not in running:
+            return
+        d = r.choice(["d", "out", "d2"])
+        inside = {"d": "d/c.txt", "out": "out/x", "d2": "d2/f.txt"}[d]
+        outs = [inside, d + "0", d + ".txt", d + "-x", d + "0/z.txt"]
+        r.shuffle(outs)
+        for i, o in enumerate(outs[:r.randint(3, 5)]):
+            need = Need.DEFAULT if r.random() < 0.8 else Need.OPTIONAL
+            if not (await self.define_explicit("./plan.py", f"mk{i}", [], [o], need)).startswith("ok"):
+                return
+        await self.complete_ok("./plan.py")
+        await self.restart(force_targets=([], [d + "/"]))
+        for _ in range(r.randint(2, 6)):
+            await self.pop()
+        await self.end_phase()
+
     async def restart(self, force_targets=None):
         """What a new director does with the stored workflow before its first dispatch: a new
         `Workflow` (consistency check with repair) and `Scheduler` on the same database, possibly
@@ -1248,7 +1270,7 @@ class KernelRun:
     SCENARIOS = ("nested_chain", "deferred_wakeup", "resource_race", "detached_completion", "rerole",
                  "amended_consumer_rerun", "hold_recycle", "shrink_resources", "retarget_optional", "cycle_via_detached",
                  "hold_running_recycled", "deferred_on_detached_input", "plan_need_demotion", "duplicate_definition",
-                 "self_define_detached")
+                 "self_define_detached", "dir_target_bounds")
 
     async def generate(self, cm, nops: int, scenario: str | None = None):
         """A history: boot, then (in the well-formed stream) one directed scenario with probability
